@@ -1,8 +1,245 @@
 import AFV.Driver.Proto
+import AFV.Model.Verdict
+import Std.Data.HashMap
 namespace AFV.Driver.C09
-open Lean AFV.Proto
+open Lean AFV.Proto AFV.Expr9 AFV.Verdict
 
-/-- Handler for property C09 requests (stub: not implemented yet). -/
-def handle (_req : Json) : Json := err "unimplemented"
+/-! JSON form of `E`:
+`["n",num,den] ["s",i] ["+",[..]] ["*",[..]] ["^",b,k] ["max",[..]] ["min",[..]] ["ceil",x] ["floor",x]
+ ["H",x] ["dceil",x] ["did",x] ["?",tag,[..]]` -/
+
+partial def toJ : E → Json
+  | .num n d => Json.arr #[Json.str "n", ofInt n, ofNat d]
+  | .sym i => Json.arr #[Json.str "s", ofNat i]
+  | .add xs => Json.arr #[Json.str "+", Json.arr (xs.map toJ).toArray]
+  | .mul xs => Json.arr #[Json.str "*", Json.arr (xs.map toJ).toArray]
+  | .pow b k => Json.arr #[Json.str "^", toJ b, ofInt k]
+  | .max xs => Json.arr #[Json.str "max", Json.arr (xs.map toJ).toArray]
+  | .min xs => Json.arr #[Json.str "min", Json.arr (xs.map toJ).toArray]
+  | .ceil x => Json.arr #[Json.str "ceil", toJ x]
+  | .floor x => Json.arr #[Json.str "floor", toJ x]
+  | .heav x => Json.arr #[Json.str "H", toJ x]
+  | .dceil x => Json.arr #[Json.str "dceil", toJ x]
+  | .did x => Json.arr #[Json.str "did", toJ x]
+  | .opq t xs => Json.arr #[Json.str "?", Json.str t, Json.arr (xs.map toJ).toArray]
+
+partial def ofJ (j : Json) : Option E := do
+  let a ← getArr? j
+  if a.size < 2 then none else
+  let tag ← getStr? a[0]!
+  let list (j : Json) : Option (List E) := do
+    let xs ← getArr? j
+    xs.toList.mapM ofJ
+  match tag, a.size with
+  | "n", 3 => do
+    let n ← getInt? a[1]!
+    let d ← getNat? a[2]!
+    if d = 0 then none else pure (.num n d)
+  | "s", 2 => do pure (.sym (← getNat? a[1]!))
+  | "+", 2 => do pure (.add (← list a[1]!))
+  | "*", 2 => do pure (.mul (← list a[1]!))
+  | "^", 3 => do pure (.pow (← ofJ a[1]!) (← getInt? a[2]!))
+  | "max", 2 => do pure (.max (← list a[1]!))
+  | "min", 2 => do pure (.min (← list a[1]!))
+  | "ceil", 2 => do pure (.ceil (← ofJ a[1]!))
+  | "floor", 2 => do pure (.floor (← ofJ a[1]!))
+  | "H", 2 => do pure (.heav (← ofJ a[1]!))
+  | "dceil", 2 => do pure (.dceil (← ofJ a[1]!))
+  | "did", 2 => do pure (.did (← ofJ a[1]!))
+  | "?", 3 => do pure (.opq (← getStr? a[1]!) (← list a[2]!))
+  | _, _ => none
+
+def key (e : E) : String := (toJ e).compress
+
+def ratJ (q : Rat) : Json := Json.arr #[ofInt q.num, ofNat q.den]
+
+def box? (j : Json) : Option Box := do
+  let a ← getArr? j
+  a.toList.mapM fun p => do
+    let l ← intList? p
+    match l with
+    | [lo, hi] => if lo ≤ hi then pure (lo, hi) else none
+    | _ => none
+
+/-! ### oracle tables -/
+
+structure Tables where
+  rel : Std.HashMap String (Option Bool) := {}
+  range : Std.HashMap String RangeAns := {}
+  norm : Std.HashMap String E := {}
+  doit : Std.HashMap String E := {}
+  expand : Std.HashMap String E := {}
+  diff : Std.HashMap String E := {}
+
+def relKey (f : E) (ge : Bool) : String := key f ++ (if ge then "|G" else "|L")
+def symKey (f : E) (s : Nat) : String := key f ++ "|" ++ toString s
+
+def rangeAns? (j : Json) : Option RangeAns := do
+  let t ← (field? j "t").bind getStr?
+  match t with
+  | "fail" => pure .fail
+  | "finite" => do
+    let l ← (field? j "l").bind getArr?
+    pure (.finite (← l.toList.mapM ofJ))
+  | "interval" => do
+    pure (.interval (← (field? j "lo").bind ofJ) (← (field? j "hi").bind ofJ))
+  | _ => none
+
+def addEntry (t : Tables) (j : Json) : Option Tables := do
+  let k ← (field? j "k").bind getStr?
+  let f ← (field? j "f").bind ofJ
+  let a ← field? j "a"
+  match k with
+  | "rel" => do
+    let ge ← (field? j "ge").bind getBool?
+    let ans : Option Bool ← (match a with
+      | .null => some none
+      | .bool b => some (some b)
+      | _ => none)
+    pure { t with rel := t.rel.insert (relKey f ge) ans }
+  | "range" => do
+    let s ← (field? j "s").bind getNat?
+    pure { t with range := t.range.insert (symKey f s) (← rangeAns? a) }
+  | "norm" => do pure { t with norm := t.norm.insert (key f) (← ofJ a) }
+  | "doit" => do pure { t with doit := t.doit.insert (key f) (← ofJ a) }
+  | "expand" => do pure { t with expand := t.expand.insert (key f) (← ofJ a) }
+  | "diff" => do
+    let s ← (field? j "s").bind getNat?
+    pure { t with diff := t.diff.insert (symKey f s) (← ofJ a) }
+  | _ => none
+
+def tables? (j : Json) : Option Tables := do
+  let a ← getArr? j
+  a.foldlM addEntry {}
+
+def oracleOf (t : Tables) : Oracle where
+  rel f ge := t.rel.get? (relKey f ge)
+  range f s := t.range.get? (symKey f s)
+  norm f := t.norm.get? (key f)
+  doit f := t.doit.get? (key f)
+  expand f := t.expand.get? (key f)
+  diff f s := t.diff.get? (symKey f s)
+
+def crJ : CR → Json
+  | .geq => Json.str "GEQ"
+  | .leq => Json.str "LEQ"
+  | .eq => Json.str "EQ"
+  | .unknown => Json.str "UNKNOWN"
+
+def cr? : String → Option CR
+  | "GEQ" => some .geq
+  | "LEQ" => some .leq
+  | "EQ" => some .eq
+  | "UNKNOWN" => some .unknown
+  | _ => none
+
+def queryJ : Query → Json
+  | .rel f ge => Json.mkObj [("k", Json.str "rel"), ("f", toJ f), ("ge", Json.bool ge)]
+  | .range f s => Json.mkObj [("k", Json.str "range"), ("f", toJ f), ("s", ofNat s)]
+  | .norm f => Json.mkObj [("k", Json.str "norm"), ("f", toJ f)]
+  | .doit f => Json.mkObj [("k", Json.str "doit"), ("f", toJ f)]
+  | .expand f => Json.mkObj [("k", Json.str "expand"), ("f", toJ f)]
+  | .diff f s => Json.mkObj [("k", Json.str "diff"), ("f", toJ f), ("s", ofNat s)]
+
+def cfg? (req : Json) : Option Cfg :=
+  match field? req "cfg" with
+  | none => some Cfg.asIs
+  | some c => do
+    pure ⟨← (field? c "tdnczEarly").bind getBool?, ← (field? c "heavIntCrash").bind getBool?⟩
+
+def resJ : M CR → Json
+  | .ok v => Json.mkObj [("verdict", crJ v)]
+  | .error (.need q) => Json.mkObj [("need", queryJ q)]
+  | .error (.exc m) => Json.mkObj [("exc", Json.str m)]
+
+/-! ### exhaustive evaluation -/
+
+structure Scan where
+  n : Nat := 0
+  sum : Rat := 0
+  mn : Rat := 0
+  mx : Rat := 0
+  argmn : List Int := []
+  argmx : List Int := []
+
+def scan (f : E) (box : Box) : Scan :=
+  (points box).foldl (fun (s : Scan) p =>
+    let v := eval (envOf p) f
+    if s.n = 0 then { n := 1, sum := v, mn := v, mx := v, argmn := p, argmx := p }
+    else { n := s.n + 1, sum := s.sum + v,
+           mn := if v < s.mn then v else s.mn, argmn := if v < s.mn then p else s.argmn,
+           mx := if s.mx < v then v else s.mx, argmx := if s.mx < v then p else s.argmx }) {}
+
+/-- first adjacent pair along `s` on which `f` increases / decreases -/
+def mono (f : E) (box : Box) (s : Nat) : Nat × Option (List Int) × Option (List Int) :=
+  match box[s]? with
+  | none => (0, none, none)
+  | some (_, hi) =>
+    (points box).foldl (fun (acc : Nat × Option (List Int) × Option (List Int)) p =>
+      if p.getD s 0 < hi then
+        let q := p.set s (p.getD s 0 + 1)
+        let a := eval (envOf p) f
+        let b := eval (envOf q) f
+        (acc.1 + 1,
+         (if acc.2.1.isNone && a < b then some p else acc.2.1),
+         (if acc.2.2.isNone && b < a then some p else acc.2.2))
+      else acc) (0, none, none)
+
+def optPt : Option (List Int) → Json
+  | none => Json.null
+  | some p => ofIntList p
+
+/-- ops:
+  {"op":"scan","f":E,"box":[[lo,hi],…]}            → {"n","sum":[p,q],"min":[p,q],"argmin":[…],"max":[p,q],"argmax":[…]}
+  {"op":"mono","f":E,"box":…, "s":i}               → {"pairs":n,"inc":pt|null,"dec":pt|null}
+  {"op":"eval","f":E,"pt":[…]}                      → [p,q]
+  {"op":"verdict","f":E,"box":…,"tdncz":b,"fuel":n,"table":[…],"cfg":{"tdnczEarly":b,"heavIntCrash":b}?}
+                                                    → {"verdict":…} | {"need":query} | {"exc":msg}   (cfg default: as-is)
+  {"op":"dverdict","f":E,"box":…,"s":i,"fuel":n,"table":[…]}      → same
+  {"op":"or","a":CR,"b":CR}                         → CR
+  {"op":"rewrite","f":E}                            → {"strip":E,"hasHeav":b,"h1":E,"h0":E,"choose":i|null}
+-/
+def handle (req : Json) : Json :=
+  match (field? req "op").bind getStr? with
+  | some "scan" =>
+    match (field? req "f").bind ofJ, (field? req "box").bind box? with
+    | some f, some box =>
+      let s := scan f box
+      Json.mkObj [("n", ofNat s.n), ("sum", ratJ s.sum), ("min", ratJ s.mn), ("argmin", ofIntList s.argmn),
+                  ("max", ratJ s.mx), ("argmax", ofIntList s.argmx)]
+    | _, _ => err "malformed"
+  | some "mono" =>
+    match (field? req "f").bind ofJ, (field? req "box").bind box?, (field? req "s").bind getNat? with
+    | some f, some box, some s =>
+      if box.length ≤ s then err "malformed" else
+      let r := mono f box s
+      Json.mkObj [("pairs", ofNat r.1), ("inc", optPt r.2.1), ("dec", optPt r.2.2)]
+    | _, _, _ => err "malformed"
+  | some "eval" =>
+    match (field? req "f").bind ofJ, (field? req "pt").bind intList? with
+    | some f, some p => ratJ (eval (envOf p) f)
+    | _, _ => err "malformed"
+  | some "verdict" =>
+    match cfg? req, (field? req "f").bind ofJ, (field? req "box").bind box?, (field? req "tdncz").bind getBool?,
+          (field? req "fuel").bind getNat?, (field? req "table").bind tables? with
+    | some cfg, some f, some box, some td, some fuel, some t => resJ (geqLeqZero cfg (oracleOf t) box fuel f td)
+    | _, _, _, _, _, _ => err "malformed"
+  | some "dverdict" =>
+    match cfg? req, (field? req "f").bind ofJ, (field? req "box").bind box?, (field? req "s").bind getNat?,
+          (field? req "fuel").bind getNat?, (field? req "table").bind tables? with
+    | some cfg, some f, some box, some s, some fuel, some t => resJ (diffVerdict cfg (oracleOf t) box fuel f s)
+    | _, _, _, _, _, _ => err "malformed"
+  | some "or" =>
+    match ((field? req "a").bind getStr?).bind cr?, ((field? req "b").bind getStr?).bind cr? with
+    | some a, some b => crJ (a.or b)
+    | _, _ => err "malformed"
+  | some "rewrite" =>
+    match (field? req "f").bind ofJ with
+    | some f =>
+      Json.mkObj [("strip", toJ (strip f)), ("hasHeav", Json.bool (hasHeav f)), ("h1", toJ (setHeav 1 f)),
+                  ("h0", toJ (setHeav 0 f)),
+                  ("choose", match chooseSym f with | some i => ofNat i | none => Json.null)]
+    | none => err "malformed"
+  | _ => err "bad-op"
 
 end AFV.Driver.C09
